@@ -345,7 +345,7 @@ def step (s : DS) (line : String) : DS × String :=
           else if !blk.complete && blk.count > 0 then
             let last := blk.list.getD (blk.count - 1) {}
             let l0 := if blk.count > 1 then (blk.list.getD 0 {}).copyFrom last else blk.list.getD 0 {}
-            { blk with list := blk.list.setIfInBounds 0 { l0 with C := min ctx (l0.n : Int) } }
+            { blk with list := blk.list.setIfInBounds 0 { l0 with C := ctx } }
           else blk
         let (a, blk, st) := readBlock a blk mr ms (ini != 0) (lng != 0)
         let exc := if a.exc then " exc" else ""
